@@ -175,7 +175,8 @@ type Sim struct {
 	PoolDrops  uint64
 	Diverged   bool
 	OnStep     func() // optional online invariant hook (norace!)
-	lastProgress int64
+	passive uint64
+	spinCap uint64
 	// crash (simulated process death) support
 	frozen []bool
 }
@@ -197,6 +198,7 @@ func New(opt Options) *Sim {
 		s.opt.MaxSteps = 200000
 	}
 	s.now = 0
+	s.spinCap = 20*s.opt.MaxSteps + 1000000
 	if opt.NumSites > 0 {
 		s.siteOn = make([]bool, opt.NumSites+1)
 		// site subset is derived from a separate stream so that it does not
@@ -511,6 +513,14 @@ func Yield(site int32) {
 	}
 	s.cur.LastSite = site
 	if int(site) < len(s.siteOn) && !s.siteOn[site] {
+		// a disabled site is not a preemption point, but it still counts
+		// against a spin budget: a loop without any synchronisation (e.g. over
+		// a corrupted list) must end the episode instead of hanging the check
+		s.passive++
+		if s.passive > s.spinCap {
+			s.finish(VStepCap, "stepcap", "spinning without reaching a synchronisation point (last site passed many times)")
+			runtime.Goexit()
+		}
 		return
 	}
 	s.yield()
